@@ -132,6 +132,19 @@ def decode(enc, shape, da=None, bare=False):
     return tuple(nidx), tuple(didx)
 
 
+def out_of_bounds(enc, shape):
+    """An integer (array) entry that lies outside its axis.  NumPy skips the bounds check when the broadcast
+    selection is empty; such indices are outside the domain (NumPy 'accepts' them only by accident)."""
+    axes = axis_of_entries(enc, len(shape))
+    for e, ax in zip(enc, axes):
+        if e["k"] in ("ilist", "varr", "int") and ax is not None and ax < len(shape):
+            n = shape[ax]
+            v = [e["v"]] if e["k"] == "int" else list(e["v"])
+            if any(i >= n or i < -n for i in v):
+                return True
+    return False
+
+
 def show(enc):
     """Compact human readable form for messages."""
     out = []
@@ -593,6 +606,8 @@ def _entry_candidates(e, n):
     yield copy.deepcopy(FULL)
     if k == "slice":
         a, b, c = e["v"]
+        if [a, b, c] != [0, 0, None]:
+            yield {"k": "slice", "v": [0, 0, None]}
         if a is not None:
             yield {"k": "slice", "v": [None, b, c]}
         if b is not None:
@@ -676,7 +691,8 @@ def candidates(enc, shape, chunks, fixed_layout=False):
     for p, (e, ax) in enumerate(zip(enc, axes)):
         if e["k"] == "ilist" and ax is not None and ax < nd and len(chunks[ax]) > 1 and chunks[ax][0] < shape[ax]:
             v = [0, chunks[ax][0]]
-            if list(e["v"]) != v:
+            old = list(e["v"])
+            if old != v and (len(old) > 2 or old != sorted(set(old)) or any(i < 0 for i in old)):
                 out = copy.deepcopy(enc)
                 out[p] = dict(e, v=v, c=[2])
                 yield out, shape, chunks
@@ -710,7 +726,7 @@ def candidates(enc, shape, chunks, fixed_layout=False):
             yield enc2, shape[:a] + (2,) + shape[a + 1:], chunks[:a] + ((2,),) + chunks[a + 1:]
 
 
-def shrink(enc, shape, chunks, probe, sym, accept=None, budget=150, fixed_layout=False):
+def shrink(enc, shape, chunks, probe, sym, accept=None, budget=500, fixed_layout=False):
     """Greedy reduction.  ``probe(enc, shape, chunks)`` -> symptom of the failure or None.
     accept(symptom) decides whether a failing variant is taken (default: same symptom only); the symptom
     follows the accepted variant.  Returns (enc, shape, chunks, symptom)."""
